@@ -22,6 +22,7 @@ void h_frame(void) {
                      scs->static_config.look_ahead_distance <= 120 && scs->static_config.logical_processors <= 1024 &&
                      scs->static_config.intra_period_length >= -2 && scs->static_config.intra_period_length <= 2147483646);  /* accepted configuration (C12) */
     num_groups = 1;
+    { CPU_FLAGS d, t; g_detected = d; g_to_use = t; }   /* statics are zero in the verifier: make the CPU sets symbolic explicitly */
     /* snapshots, member by member (list generated from the DWARF layout on this run) */
 #define M(path, name, size) __typeof__(scs->path) b_##path; memcpy(&b_##path, &scs->path, sizeof(b_##path));
     LAYOUT_MEMBERS(M)
@@ -48,4 +49,5 @@ void h_frame(void) {
     /* C06 U06.2: the instruction-set flags actually used are a subset of requested AND usable-on-this-CPU */
     V_ASSERT(e != EB_ErrorNone || scs->static_config.use_cpu_flags == (requested & g_to_use), "instruction-set flags used == requested & usable (never more than the CPU offers, never more than asked)");
     V_CANARY("buffer configuration returns");
+    __CPROVER_assert(!(e == EB_ErrorNone && scs->static_config.use_cpu_flags != 0 && scs->static_config.use_cpu_flags != requested), "CANARY a proper non-empty subset of the requested instruction sets is selected");
 }
